@@ -50,6 +50,10 @@ type sBatch struct {
 	// answer is a genuine result file of the participant's machine in which only the signature shares are replaced,
 	// submitted through the participant's own node, so it is a correctly signed board message of that participant.
 	Faulty []sFault `json:"faulty,omitempty"`
+	// Tamper = k > 0: on its way to participant k-1's airgapped machine the request file is altered (one explicit payload
+	// replaced; identifier, type and round untouched); the machine signs what it is given, and the node must refuse the
+	// result because the request that comes back is not the one it issued. The operator then carries the genuine file.
+	Tamper int `json:"tamper,omitempty"`
 }
 
 type sFault struct {
@@ -193,6 +197,8 @@ type sigObs struct {
 	States    []string
 	Logs      [][]string
 	Err       error // harness-level trouble (API error on an honest action etc.)
+	Viol      *viol // a violation observed while the case ran
+	Tampered  int   // tampered requests whose results were refused
 }
 
 // fixtureGroupKey returns the group key of one of the fixture's rounds.
@@ -442,6 +448,43 @@ func runSigningCase(fx *world.Fixture, p sPlan, root string) *sigObs {
 		}
 		bo.Proposed = true
 
+		if b.Tamper > 0 && !b.ViaAPI {
+			i := (b.Tamper - 1) % p.N
+			w.Poll(i, -1)
+			if op := pendingSigningOp(w, i, bo.BatchID); op != nil {
+				if file, err := w.Nodes[i].OperationFile(op.ID); err == nil {
+					var o types.Operation
+					var inv struct {
+						BatchID    string
+						SrcPayload []byte
+					}
+					var tasks []requests.SigningTask
+					if json.Unmarshal(file, &o) == nil && json.Unmarshal(o.Payload, &inv) == nil && json.Unmarshal(inv.SrcPayload, &tasks) == nil {
+						altered := false
+						for k := range tasks {
+							if tasks[k].Payload != nil {
+								tasks[k].Payload = append(append([]byte{}, tasks[k].Payload...), []byte(" (altered in transit)")...)
+								altered = true
+								break
+							}
+						}
+						if altered {
+							inv.SrcPayload, _ = json.Marshal(tasks)
+							o.Payload, _ = json.Marshal(inv)
+							bad, _ := json.Marshal(o)
+							before := w.Board.Len()
+							if res, err := w.Machines[i].Process(bad); err == nil {
+								if serr := w.Nodes[i].SubmitResult(res); serr == nil || w.Board.Len() != before {
+									obs.Viol = violf("tampered-request-accepted", "batch %d: participant %d's request file was altered on its way to the airgapped machine (one payload replaced); the node accepted the result (err=%v) and posted %d message(s) signed over bytes that were never proposed", bi, i, serr, w.Board.Len()-before)
+									return obs
+								}
+								obs.Tampered++
+							}
+						}
+					}
+				}
+			}
+		}
 		// tape: choose among enabled actions
 		for _, c := range b.Tape {
 			type act struct {
